@@ -30,7 +30,28 @@ def main(argv):
     mod = importlib.import_module(f"vp.props.{prop.lower()}")
     if replay:
         return mod.replay(replay)
-    return mod.check(tier)
+    try:
+        return mod.check(tier)
+    except Exception as e:  # noqa: BLE001
+        # The checks do not raise on the tree they were built for.  An exception escaping one means the code under test
+        # behaved in a way no oracle anticipated (e.g. infinite recursion in a comparison operator): report it as a
+        # violation with a replayable record instead of dying without a verdict.
+        import json
+        import traceback
+
+        from .common import REPLAY_DIR, digest
+
+        tb = traceback.format_exc()
+        frames = traceback.extract_tb(e.__traceback__)
+        where = next((f"{os.path.basename(fr.filename)}:{fr.name}" for fr in reversed(frames) if "/fickling/" in fr.filename), "harness")
+        os.makedirs(os.path.join(REPLAY_DIR, prop), exist_ok=True)
+        path = os.path.join(REPLAY_DIR, prop, f"{digest(tb)}.json")
+        with open(path, "w") as f:
+            json.dump({"property": prop, "signature": f"{prop}|unexpected-exception|{type(e).__name__}|{where}", "description": str(e)[:500],
+                       "case": {"traceback": tb[-4000:]}}, f, indent=1)
+        print(f"VIOLATION property={prop} replay={path}")
+        print(f"  [{prop}|unexpected-exception|{type(e).__name__}|{where}] {type(e).__name__}: {str(e)[:300]} (uncaught in the check; traceback in the replay file)")
+        return 1
 
 
 if __name__ == "__main__":
